@@ -165,13 +165,30 @@ def make_target(DP, container, merge, retention):
     return (lambda: t[0][("p", 1)]["q"]), (lambda batch: t[0][("p", 1)]["q"].update(*batch))
 
 
+SPELLED = {"inf": math.inf, "-inf": -math.inf, "sinf": math.inf, "-sinf": -math.inf, "one_f": 1.0, "one_b": True, "zero_f": 0.0, "mzero_f": -0.0}
+
+
+def spelled(v):
+    """Values that replay files carry as strings: the two spellings of infinity a caller may use (the float and the
+    sentinel of the `infinity` package, equal but hashed differently), floats / booleans equal to the integers 0 and 1."""
+    if not isinstance(v, str):
+        return v
+    if v in ("sinf", "-sinf"):
+        from infinity import inf as sentinel
+
+        return sentinel if v == "sinf" else -sentinel
+    return SPELLED[v]
+
+
 def check_history(ctx, DP, history, sizes, merge, retention, container):
     case = {"kind": "hist", "history": [list(h) for h in history], "batches": list(sizes), "merge": merge, "retention": retention, "container": container}
     get, apply = make_target(DP, container, merge, retention)
     pos = 0
+    as_given = history
+    history = [(SPELLED[v] if isinstance(v, str) else v, t) for v, t in history]
     try:
         for sz in sizes:
-            apply([DP.Candidate(v, t) for v, t in history[pos : pos + sz]])
+            apply([DP.Candidate(spelled(v), t) for v, t in as_given[pos : pos + sz]])
             pos += sz
         read = read_entry(get())
     except Exception as exc:  # noqa: BLE001
@@ -555,6 +572,20 @@ def run(ctx, spec):
             h1 = [(infv, t) for _, t in h1]
         ctx.count("mon.combine_infinite")
         check_combine(ctx, DP, h1, h2, merge, retention, rng.choice(["sum", "sum_plus_tag", "max_notag", "clip", "clip"]))
+    # equal values spelled differently inside one history / one batch: float inf and the sentinel of the `infinity`
+    # package (equal, different hashes), 1 / 1.0 / True, 0 / 0.0 / -0.0 - ties must be recognised as ties
+    for k in range(600 if ctx.tier == "quick" else 12000):
+        merge, retention = policies[k % len(policies)] if k % 2 else (("MIN", "ALL") if k % 4 else ("MAX", "ALL"))
+        sign = "" if (merge == "MIN") == (k % 8 < 6) else "-"
+        pool = rng.choice([[sign + "inf", sign + "sinf"], [sign + "inf", sign + "sinf", 1], [1, "one_f", "one_b", 2], [0, "zero_f", "mzero_f", 1], [sign + "sinf", sign + "inf", sign + "sinf", 0]])
+        L = rng.randint(2, 5)
+        hist = tuple((rng.choice(pool), rng.choice(["a", "b", "c", "d", None])) for _ in range(L))
+        sizes = rng.choice(list(batchings(L)))
+        ctx.count("mon.history_equal_values_spelled_differently")
+        # infinite candidates only on standalone entries: a table cell is documented to come into existence with the first
+        # NON-infinite candidate (EntryProxy docstring), so what an all-infinite batch leaves in a cell is not Entry semantics
+        infinite = any(isinstance(v, str) and "inf" in v for v, _ in hist)
+        check_history(ctx, DP, hist, sizes, merge, retention, "entry" if infinite else CONTAINERS[k % len(CONTAINERS)])
     for k in range(20):
         check_defaults(ctx, DP, [rng.choice(VALUES) for _ in range(3)], k)
     # operands with different retention policies (ANY x ALL, ALL x ANY, NONE x ALL), tag-dependent combinators
